@@ -1,5 +1,6 @@
 """C08 — spans and span reductions (exetera/core/operations.py, session.py, fields.py) vs coq/Model/Spans.v."""
 import itertools, io
+from harness import hot
 
 PROP, NUM = 'C08', 8
 PROPS_FILES = ['Props/C08.v']
@@ -15,15 +16,27 @@ RULE = ('exhaustive small scope: get_spans through Field.get_spans / Session.get
         '(kernel / Session / Field level, int32 and int64 spans) on every valid span partition x every column of length '
         '0..4 (numeric 3 values, fixed 5 strings, indexed 7 prefix-heavy strings), the *_filter kernels on every weakly '
         'increasing span list; plus seeded random longer inputs (runs, up to 40 rows) and a malformed stream (unequal '
-        'lengths, empty / unsorted / out-of-range spans) compared error-for-error with the model. Non-trivial = the case '
-        'reaches a planted feature (see features).')
+        'lengths, empty / unsorted / out-of-range spans) compared error-for-error with the model. LARGE inputs (stored '
+        'run-length encoded, answered on the encoding by spans_of_rle / rle_*_ref, theorems spans_rle_* / apply_spans_rle): '
+        'for every block length K in a standing sweep (2^8..2^23, 10^3..10^6; thorough also 3*2^k, 5*10^6) and every integer '
+        'literal that is NEW in the tree under test (harness/hot.py, up to 2^23; for those every layout x every dtype): '
+        'columns of K..3K+1 rows with value changes planted at rows K-1, K, K+1, 2K-1, 2K, 2K+1, 3K (and none at all) '
+        'through every one-column entry point, pairs of such columns through fields=(Field,Field) / (ndarray,ndarray), '
+        'random run layouts around K, and min / max / first / last / index_of_min / index_of_max (kernel, Session, Field) '
+        'with the extreme rows (and ties) at / next to K and 2K and spans that straddle, start or end at them; for small '
+        'new literals K <= 2048 also explicit K+1 / 2K+2-row tables through _get_spans_for_multi_fields / check_if_sorted. '
+        'Non-trivial = the case reaches a planted feature (see features).')
 EXHAUSTIVE = {'quick': True, 'thorough': True}
 TRUSTED = ['numpy element-wise `!=`, `<`, `>` on int/float/bool/S arrays and numba\'s charseq comparisons are the exact '
            '(byte-wise unsigned, NUL-padded) comparisons of the model (exercised by this correspondence, not proved)',
            'float columns are NaN-free multiples of 1/4 (order-embedded into Z by the harness)',
-           'apply_index_to_indexed_field (C09) maps the row indices returned by the indexed kernels to strings']
+           'apply_index_to_indexed_field (C09) maps the row indices returned by the indexed kernels to strings',
+           'large cases: the harness expands a run-length encoding with numpy.repeat / numpy.tile (offsets by cumsum); '
+           'Model/SpansRle.v `expand` is the meaning of that expansion (numpy.repeat itself is not verified)']
 ASSUMPTIONS = ['NaN-free floats', 'fewer than 2^31-1 rows (int32 span dtype branch; the int64 branch is the same code)',
-               'span kernels are called with dest_array=None (the only way the entry points call them)']
+               'span kernels are called with dest_array=None (the only way the entry points call them)',
+               'large (run-length encoded) cases: up to 3*2^23+1 rows of 1-byte elements (2^25 bytes per column); a block '
+               'length above 2^23 is not reached; per-row interpreted loops (USE_NUMBA=false) are run up to 2^17 rows only']
 TECHNIQUE = ('Coq proof (Gallina model of every span kernel = list-level span / per-span reduction specification) + '
              'exhaustive small-scope differential correspondence against the real entry points')
 LEVEL_TEXT = ('Theorems in coq/Props/C08.v prove for all inputs that the models of get_spans_for_field, the 2-field, '
@@ -95,34 +108,36 @@ def _offsets(rows):
     return off
 
 
-def _field(col, h5=False):
-    """a Field holding the column (memory field, or HDF5-backed when h5)."""
-    np, F = _np, _fields
-    k = col['k']
+def _new_field(k, w, h5):
+    F = _fields
     if h5:
         _h5n[0] += 1
         name = 'f%d' % _h5n[0]
         if k == 'fixed':
-            f = DF.create_fixed_string(name, col['w'])
-        elif k == 'indexed':
-            f = DF.create_indexed_string(name)
-        elif k == 'cat':
-            f = DF.create_categorical(name, 'int8', {'a': 0, 'b': 1, 'c': 2, 'd': 3})
-        elif k == 'ts':
-            f = DF.create_timestamp(name)
-        else:
-            f = DF.create_numeric(name, k)
-    else:
-        if k == 'fixed':
-            f = F.FixedStringMemField(S, col['w'])
-        elif k == 'indexed':
-            f = F.IndexedStringMemField(S)
-        elif k == 'cat':
-            f = F.CategoricalMemField(S, 'int8', {'a': 0, 'b': 1, 'c': 2, 'd': 3})
-        elif k == 'ts':
-            f = F.TimestampMemField(S)
-        else:
-            f = F.NumericMemField(S, k)
+            return DF.create_fixed_string(name, w)
+        if k == 'indexed':
+            return DF.create_indexed_string(name)
+        if k == 'cat':
+            return DF.create_categorical(name, 'int8', {'a': 0, 'b': 1, 'c': 2, 'd': 3})
+        if k == 'ts':
+            return DF.create_timestamp(name)
+        return DF.create_numeric(name, k)
+    if k == 'fixed':
+        return F.FixedStringMemField(S, w)
+    if k == 'indexed':
+        return F.IndexedStringMemField(S)
+    if k == 'cat':
+        return F.CategoricalMemField(S, 'int8', {'a': 0, 'b': 1, 'c': 2, 'd': 3})
+    if k == 'ts':
+        return F.TimestampMemField(S)
+    return F.NumericMemField(S, k)
+
+
+def _field(col, h5=False):
+    """a Field holding the column (memory field, or HDF5-backed when h5)."""
+    np = _np
+    k = col['k']
+    f = _new_field(k, col.get('w'), h5)
     if k == 'indexed':
         rows = col['rows']
         if col.get('str') and all(b < 128 for r in rows for b in r):
@@ -132,6 +147,41 @@ def _field(col, h5=False):
             f.values.write(np.array([b for r in rows for b in r], dtype=np.uint8))
     else:
         f.data.write(_array(col))
+    return f
+
+
+# ---- run-length encoded columns (large inputs): {'k': kind, 'w': width, 'runs': [[value, n], ...]}, n >= 0
+def _rle_rows(rc):
+    return sum(n for _, n in rc['runs'])
+
+
+def _rle_array(rc):
+    """the expanded ndarray of a numeric / fixed run-length encoded column."""
+    np = _np
+    k = rc['k']
+    lens = np.array([n for _, n in rc['runs']], dtype=np.int64)
+    if k == 'fixed':
+        vals = np.array([bytes(v) for v, _ in rc['runs']], dtype='S%d' % rc['w'])
+    else:
+        vals = np.array([_num_value(k, v) for v, _ in rc['runs']], dtype=_np_dtype(k))
+    return np.repeat(vals, lens)
+
+
+def _rle_field(rc, h5=False):
+    np = _np
+    k = rc['k']
+    f = _new_field(k, rc.get('w'), h5)
+    if k == 'indexed':
+        runs = [(v, n) for v, n in rc['runs'] if n > 0]
+        if runs:
+            rowlen = np.repeat(np.array([len(v) for v, _ in runs], dtype=np.int64), np.array([n for _, n in runs], dtype=np.int64))
+            idx = np.zeros(len(rowlen) + 1, dtype=np.int64)
+            np.cumsum(rowlen, out=idx[1:])
+            vals = [np.tile(np.array(v, dtype=np.uint8), n) for v, n in runs if len(v)]
+            f.indices.write(idx)
+            f.values.write(np.concatenate(vals) if vals else np.zeros(0, dtype=np.uint8))
+    else:
+        f.data.write(_rle_array(rc))
     return f
 
 
@@ -201,6 +251,29 @@ def run(case):
         finally:
             _drop(f, h5)
         return out
+    if op == 'gsr':
+        rc, h5 = case['col'], case.get('h5', False)
+        f = _rle_field(rc, h5)
+        try:
+            out = {'f': _spans_out(f.get_spans()), 'sf': _spans_out(S.get_spans(f)),
+                   'kw': _spans_out(S.get_spans(field=f))}
+            if rc['k'] != 'indexed':
+                out['sa'] = _spans_out(S.get_spans(f.data[:]))
+                out['op'] = _spans_out(ops.get_spans_for_field(_rle_array(rc)))
+        finally:
+            _drop(f, h5)
+        return out
+    if op == 'gsr2f':
+        h5 = case.get('h5', False)
+        f0, f1 = _rle_field(case['c0'], h5), _rle_field(case['c1'], h5)
+        try:
+            return _spans_out(S.get_spans(fields=(f0, f1)))[0]
+        finally:
+            _drop(f0, h5); _drop(f1, h5)
+    if op == 'gsr2a':
+        return _spans_out(S.get_spans(fields=(_rle_array(case['c0']), _rle_array(case['c1']))))
+    if op == 'apr':
+        return _run_apply_rle(case)
     if op == 'gs2f':
         h5 = case.get('h5', False)
         f0, f1 = _field(case['c0'], h5), _field(case['c1'], h5)
@@ -234,6 +307,33 @@ def run(case):
             d, fl = getattr(ops, 'apply_spans_index_of_%s_filter' % fn)(spans, dest, flt)
         return [_ints(d), [1 if x else 0 for x in fl]]
     raise ValueError(op)
+
+
+def _run_apply_rle(case):
+    """apply_spans_* on a run-length encoded (large) numeric / fixed column; spans are valid by construction."""
+    np, ops = _np, _ops
+    fn, level, rc = case['fn'], case['level'], case['col']
+    k = rc['k']
+    spans = np.array(case['spans'], dtype=np.int32 if case['sdt'] == 'int32' else np.int64)
+    if level == 'kernel':
+        r = getattr(ops, 'apply_spans_' + fn)(spans, _rle_array(rc))
+    elif level == 'session':
+        target = _rle_field(rc) if case.get('tf') else _rle_array(rc)
+        r = getattr(S, 'apply_spans_' + fn)(spans, target)
+    else:
+        h5 = case.get('h5', False)
+        f = _rle_field(rc, h5)
+        try:
+            if case.get('inplace'):
+                g = getattr(f, 'apply_spans_' + fn)(spans, in_place=True)
+            else:
+                g = getattr(f, 'apply_spans_' + fn)(spans)
+            r = g.data[:]
+        finally:
+            _drop(f, h5)
+    if fn in ('min', 'max', 'first', 'last'):
+        return {'v': _vals_out(r, k), 'dt': str(r.dtype)}
+    return {'v': _ints(r), 'dt': str(r.dtype)}
 
 
 def _run_apply(case):
@@ -304,8 +404,27 @@ def _wcol(col):
     return [0, list(col['rows'])]
 
 
+def _wrle(rc):
+    k = rc['k']
+    lens = [n for _, n in rc['runs']]
+    if k == 'fixed':
+        return [1, [_pad(v, rc['w']) for v, _ in rc['runs']], lens]
+    if k == 'indexed':
+        return [1, [list(v) for v, _ in rc['runs']], lens]
+    if k == 'bool':
+        return [0, [1 if v else 0 for v, _ in rc['runs']], lens]
+    return [0, [v for v, _ in rc['runs']], lens]
+
+
 def to_val(case):
     op = case['op']
+    if op == 'gsr':
+        return [20, _wrle(case['col'])]
+    if op in ('gsr2f', 'gsr2a'):
+        return [21, _wrle(case['c0']), _wrle(case['c1'])]
+    if op == 'apr':
+        lv = {'kernel': 0, 'session': 1, 'field': 2}[case['level']]
+        return [22, KID[case['fn']], lv, case['spans'], _wrle(case['col'])]
     if op == 'gs':
         return [1, _wcol(case['col'])]
     if op == 'gs2f':
@@ -338,7 +457,11 @@ def _strip(r):
 def _shape(case, v):
     """model / spec wire value -> the canonical form run() produces."""
     op = case['op']
-    if op == 'gs':
+    if op == 'gsr2f':
+        return v
+    if op == 'gsr2a':
+        return [v, 'int32']
+    if op in ('gs', 'gsr'):
         k = case['col']['k']
         if k == 'indexed':
             return {'f': [v, 'list'], 'sf': [v, 'list'], 'kw': [v, 'list']}
@@ -349,7 +472,7 @@ def _shape(case, v):
         return [v, 'int32']
     if op in ('sorted', 'bs', 'apf'):
         return v
-    if op == 'ap':
+    if op in ('ap', 'apr'):
         fn, k = case['fn'], case['col']['k']
         if k == 'indexed':
             if case['level'] == 'kernel':
@@ -394,6 +517,28 @@ def features(case, model):
     if isinstance(model, str):
         f.append('err:' + model.split(':')[0] + (':' + model.split(':')[1] if model.startswith('EXC') else ''))
     op = case['op']
+    if op in ('gsr', 'gsr2f', 'gsr2a'):
+        return f + _rle_features(case)
+    if op == 'apr':
+        rc, sp = case['col'], case['spans']
+        n = _rle_rows(rc)
+        f += ['fn:' + case['fn'], 'level:' + case['level'], 'sdt:' + case['sdt'], 'kind:' + rc['k'],
+              'rle:rows>=2^%d' % (n.bit_length() - 1)]
+        K = case.get('K')
+        if K:
+            f.append('rle:K=%d' % K)
+            f.append('rle:K-new-literal-of-tree-under-test' if case.get('hotK') else 'rle:K-standing-sweep')
+            if any(a < m * K < b for a, b in zip(sp, sp[1:]) for m in (1, 2)): f.append('rle:span-straddles-multiple-of-K')
+            if any(x in (K, 2 * K) for x in sp[1:-1]): f.append('rle:span-starts-at-multiple-of-K')
+            bs = set(_rle_bounds(rc))
+            if bs & {K, 2 * K}: f.append('rle:value-changes-at-multiple-of-K')
+        if case.get('layout'): f.append('rle:layout=' + case['layout'])
+        if sp[0] != 0 or sp[-1] != n: f.append('spans-cover-part-of-column')
+        if len(sp) == 2: f.append('one-span')
+        if case.get('inplace'): f.append('in_place')
+        if case.get('tf'): f.append('target-is-field')
+        if case.get('h5'): f.append('hdf5-backed')
+        return f
 
     def colfeat(col, tag=''):
         rows, k = col['rows'], col['k']
@@ -485,6 +630,74 @@ def features(case, model):
     return f
 
 
+def _rle_bounds(rc):
+    """row numbers at which the expanded column changes value."""
+    out, pos, prev = [], 0, None
+    for v, n in rc['runs']:
+        if n <= 0:
+            continue
+        key = (bool(v) if rc['k'] == 'bool' else tuple(v) if isinstance(v, list) else v)
+        if prev is not None and key != prev:
+            out.append(pos)
+        prev = key
+        pos += n
+    return out
+
+
+def _rle_features(case):
+    f = []
+    cols = [case['col']] if case['op'] == 'gsr' else [case['c0'], case['c1']]
+    n = _rle_rows(cols[0])
+    for rc in cols:
+        f.append('kind:' + rc['k'])
+    f.append('rle:rows>=2^%d' % (n.bit_length() - 1) if n else 'rows=0')
+    if case.get('h5'): f.append('hdf5-backed')
+    if case.get('K'):
+        K = case['K']
+        f.append('rle:K=%d' % K)
+        f.append('rle:K-new-literal-of-tree-under-test' if case.get('hotK') else 'rle:K-standing-sweep')
+        bs = set()
+        for rc in cols:
+            bs |= set(_rle_bounds(rc))
+        for m in (1, 2, 3):
+            for d in (-1, 0, 1):
+                if m * K + d in bs:
+                    f.append('rle:boundary-at-%sK%s' % ('' if m == 1 else m, {-1: '-1', 0: '', 1: '+1'}[d]))
+        if not any((m * K) in bs for m in (1, 2, 3)) and n > K:
+            f.append('rle:no-boundary-at-multiple-of-K')
+        if n % K == 0: f.append('rle:rows-multiple-of-K')
+        if n % K == 1: f.append('rle:rows=multiple-of-K+1')
+    if case.get('layout'): f.append('rle:layout=' + case['layout'])
+    for rc in cols:
+        if any(n0 == 0 for _, n0 in rc['runs']): f.append('rle:zero-length-run')
+        rr = rc['runs']
+        if any(rr[i][0] == rr[i + 1][0] for i in range(len(rr) - 1)): f.append('rle:adjacent-runs-same-value')
+    if len(cols) == 2:
+        if _rle_rows(cols[0]) != _rle_rows(cols[1]): f.append('malformed:unequal-lengths')
+        b0, b1 = set(_rle_bounds(cols[0])), set(_rle_bounds(cols[1]))
+        if b0 & b1: f.append('shared-boundary')
+        if b0 - b1 and b1 - b0: f.append('interleaved-boundaries')
+        if (b0 and not b1) or (b1 and not b0): f.append('one-side-constant')
+    return f
+
+
+# rows above which the interpreted (USE_NUMBA=false) per-row loops of the njit kernels are not run
+NOJIT_LOOP_ROWS = 1 << 17
+
+
+def skip(case, mode):
+    op = case['op']
+    if mode == 'nojit' and op == 'apr':
+        # apply_spans_min / max walk the rows of every span in a python loop when numba is off
+        return case['fn'] in ('min', 'max') and _rle_rows(case['col']) > NOJIT_LOOP_ROWS
+    if mode == 'nojit' and op in ('gsr', 'gsr2f', 'gsr2a'):
+        cols = [case['col']] if op == 'gsr' else [case['c0'], case['c1']]
+        n = _rle_rows(cols[0])
+        if n > NOJIT_LOOP_ROWS and (op == 'gsr2a' or any(rc['k'] == 'indexed' for rc in cols)):
+            return True
+    return False
+
+
 def nontrivial(case, model):
     if isinstance(model, str) and model == 'BADCASE':
         return False
@@ -554,7 +767,261 @@ def _warm_cases():
                 yield {'op': 'apf', 'fn': fn, 'sdt': sdt, 'spans': [0, 2], 'col': _col(k, [0, 1]), 'dest': [0], 'flt': [0]}
 
 
+# ---- large inputs, run-length encoded ---------------------------------------------------------------------------
+# A vectorised entry point that starts working block by block (or a kernel that keeps a window) can lose / invent a
+# boundary only where a run boundary meets a block edge: rows K-1, K, K+1, 2K … for the block length K.  K is unknown
+# and far beyond the exhaustive scope, so (a) a standing sweep plants boundaries around every power of two 2^8..2^23 and
+# every power of ten 10^3..10^6, and (b) every integer literal that is NEW in the tree under test (harness/hot.py: the
+# small ones and the ones too large to enumerate, up to 2^23) is treated as a candidate K.  The cases are stored run-length
+# encoded and answered by spans_of_rle (theorems spans_rle_* of Props/C08.v).
+RLE_K_MAX = 1 << 23
+RLE_MAX_BYTES = 1 << 25          # size of one expanded column
+RLE_H5_BYTES = 1 << 23
+_ITEMSIZE = {'int8': 1, 'bool': 1, 'cat': 1, 'fixed': 2, 'int32': 4, 'float32': 4, 'int64': 8, 'float64': 8, 'ts': 8,
+             'indexed': 12}
+RLE_KINDS = ['int8', 'int32', 'bool', 'fixed', 'cat', 'float32', 'int64', 'indexed', 'float64', 'ts']
+_RLE_FIXED = [[97], [98], [97, 32]]         # a, b differ in a byte; c differs from a only by a trailing blank
+_RLE_INDEXED = [[97], [98], [97, 32], []]   # a, b same length; c longer; d empty
+
+
+def _rle_layouts(K):
+    a, b, c = 0, 1, 2
+    L = [('boundary-at-K', [(a, K), (b, K)]),
+         ('boundary-at-K-1', [(a, K - 1), (b, K + 1)]),
+         ('boundary-at-K+1', [(a, K + 1), (b, K - 1)]),
+         ('K+1-rows-last-row-alone', [(a, K), (b, 1)]),
+         ('K-rows-last-row-alone', [(a, K - 1), (b, 1)]),
+         ('constant-K+1-rows', [(a, K), (a, 1)]),
+         ('constant-2K+1-rows', [(a, K), (b, 0), (a, K + 1)]),
+         ('boundaries-K-1,K,K+1,2K-1,2K,2K+1', [(a, K - 1), (b, 1), (c, 1), (a, K - 2), (b, 1), (c, 1), (a, 1)]),
+         ('boundary-at-2K-only', [(a, 2 * K), (b, 1)]),
+         ('boundary-at-2K-1', [(a, 2 * K - 1), (b, 2)]),
+         ('boundaries-K,2K,3K', [(a, K), (b, K), (a, K), (b, 1)]),
+         ('short-runs-then-K,2K', [(a, 1), (b, 2), (a, K - 3), (b, K), (c, 5)])]
+    return [(name, runs) for name, runs in L if all(n >= 0 for _, n in runs)]
+
+
+def _rle_pairs(K):
+    a, b = 0, 1
+    return [('shared-boundary-at-K', [(a, K), (b, K)], [(b, K), (a, K)]),
+            ('only-second-column-changes-at-K', [(a, K), (a, K)], [(a, K), (b, K)]),
+            ('only-first-column-changes-at-K', [(a, K), (b, K + 1)], [(a, 2 * K + 1)]),
+            ('interleaved-K-1/K+1', [(a, K - 1), (b, K + 1)], [(a, K + 1), (b, K - 1)]),
+            ('K/2K-of-2K+1-rows', [(a, K), (b, K + 1)], [(b, 2 * K), (a, 1)])]
+
+
+def _rle_col(k, runs):
+    """codes 0..3 of a layout -> the values of the kind."""
+    if k == 'fixed':
+        return {'k': k, 'w': 2, 'runs': [[list(_RLE_FIXED[v % 3]), n] for v, n in runs]}
+    if k == 'indexed':
+        return {'k': k, 'runs': [[list(_RLE_INDEXED[v % 4]), n] for v, n in runs]}
+    if k == 'bool':
+        return {'k': k, 'runs': [[v % 2, n] for v, n in runs]}
+    return {'k': k, 'runs': [[v, n] for v, n in runs]}
+
+
+def _rle_fits(k, n):
+    return n * _ITEMSIZE[k] <= RLE_MAX_BYTES
+
+
+def rle_sizes(tier):
+    """[(K, is_new_literal)]: the standing sweep, then the new literals of the tree under test."""
+    ks = [(1 << e, False) for e in range(8, 24)] + [(10 ** e, False) for e in range(3, 7)]
+    if tier == 'thorough':
+        ks += [(3 << e, False) for e in range(8, 22, 2)] + [(5 * 10 ** 6, False)]
+    new = [k for k in list(hot.hot_sizes()) + list(hot.big_sizes()) if 2 <= k <= RLE_K_MAX]
+    return ks + [(k, True) for k in sorted(set(new))[:8]]
+
+
+def unreachable_sizes():
+    """new literals that are too large to plant (reported in the evidence)."""
+    return [k for k in hot.big_sizes() if k > RLE_K_MAX]
+
+
+def _gen_rle(tier, rng):
+    big = tier == 'thorough'
+    t = 0
+    pair_kinds = [('int8', 'int8'), ('int32', 'fixed'), ('fixed', 'int8'), ('bool', 'int32'), ('indexed', 'int8'),
+                  ('int64', 'float64'), ('cat', 'indexed')]
+    for K, new in rle_sizes(tier):
+        every = big or new                       # thorough / a new literal: every layout x every kind that fits
+        for name, runs in _rle_layouts(K):
+            n = sum(x for _, x in runs)
+            kinds = RLE_KINDS if every else [RLE_KINDS[(t + j) % len(RLE_KINDS)] for j in ((0, 3) if K < 1 << 22 else (0,))]
+            for k in kinds:
+                if not _rle_fits(k, n):
+                    k = None if every else [x for x in (['bool', 'cat', 'fixed'][t % 3], 'int8') if _rle_fits(x, n)][0]
+                if k is None:
+                    continue
+                t += 1
+                yield {'op': 'gsr', 'K': K, 'hotK': bool(new), 'layout': name, 'col': _rle_col(k, runs),
+                       'h5': t % 8 == 0 and n * _ITEMSIZE[k] <= RLE_H5_BYTES}
+        for name, r0, r1 in _rle_pairs(K):
+            n = sum(x for _, x in r0)
+            combos = pair_kinds if every else [pair_kinds[(t + j) % len(pair_kinds)] for j in ((0, 2) if K < 1 << 22 else (0,))]
+            for (k0, k1) in combos:
+                if not (_rle_fits(k0, n) and _rle_fits(k1, n)):
+                    if every:
+                        continue
+                    k0, k1 = 'int8', 'bool'
+                t += 1
+                c0, c1 = _rle_col(k0, r0), _rle_col(k1, r1)
+                yield {'op': 'gsr2f', 'K': K, 'hotK': bool(new), 'layout': name, 'c0': c0, 'c1': c1,
+                       'h5': t % 16 == 0 and n * 8 <= RLE_H5_BYTES}
+                if 'indexed' not in (k0, k1):
+                    yield {'op': 'gsr2a', 'K': K, 'hotK': bool(new), 'layout': name, 'c0': c0, 'c1': c1}
+    # structured random: run lengths drawn around a size of the sweep, values from a small alphabet
+    sizes = [K for K, _ in rle_sizes(tier) if K <= (1 << 21 if big else 1 << 19)]
+
+    def rnd_runs(K, total=None):
+        runs, n = [], 0
+        goal = total if total is not None else rng.choice([K + 1, 2 * K, 2 * K + 1, 3 * K])
+        while n < goal:
+            ln = rng.choice([0, 1, 1, 2, 3, K - 1, K, K, K + 1, K // 2, 2 * K])
+            ln = max(0, min(ln, goal - n if total is not None or rng.random() < 0.5 else ln))
+            runs.append((rng.randrange(3), ln)); n += ln
+        return runs, n
+    for _ in range(400 if big else 60):
+        K = rng.choice(sizes)
+        r0, n = rnd_runs(K)
+        r1, n1 = rnd_runs(K, n)
+        k0 = rng.choice([k for k in RLE_KINDS if _rle_fits(k, n)])
+        k1 = rng.choice([k for k in RLE_KINDS if _rle_fits(k, n)])
+        yield {'op': 'gsr', 'K': K, 'layout': 'random', 'col': _rle_col(k0, r0), 'h5': rng.random() < 0.05 and n * _ITEMSIZE[k0] <= RLE_H5_BYTES}
+        c0, c1 = _rle_col(k0, r0), _rle_col(k1, r1)
+        yield {'op': 'gsr2f', 'K': K, 'layout': 'random', 'c0': c0, 'c1': c1}
+        if 'indexed' not in (k0, k1):
+            yield {'op': 'gsr2a', 'K': K, 'layout': 'random', 'c0': c0, 'c1': c1}
+
+
+_RLE_ORD_FIXED = [[97], [97, 32], [98]]      # NUL-padded byte order = code order
+APR_KINDS = ['int8', 'int32', 'fixed', 'float32', 'cat', 'int64', 'float64', 'ts']
+APR_FNS = ['min', 'index_of_min', 'max', 'index_of_max', 'first', 'last']
+
+
+def _runs_from_marks(n, marks, bg=1):
+    runs, pos = [], 0
+    for p in sorted(marks):
+        if not 0 <= p < n:
+            continue
+        if p > pos:
+            runs.append((bg, p - pos))
+        runs.append((marks[p], 1)); pos = p + 1
+    if pos < n:
+        runs.append((bg, n - pos))
+    return runs
+
+
+def _gen_rle_apply(tier, rng):
+    """reductions on large columns: the extreme row sits at / next to a multiple of K, spans straddle / start at it."""
+    big = tier == 'thorough'
+    t = 0
+    for ki, (K, new) in enumerate(rle_sizes(tier)):
+        if K < 4:
+            continue
+        n = 2 * K + 2
+        cols = [('low@K-1,high@K', {K - 1: 0, K: 2}), ('low@K,high@K-1', {K: 0, K - 1: 2}),
+                ('low@K=2K,high@K-1=2K+1', {K: 0, 2 * K: 0, K - 1: 2, 2 * K + 1: 2}),
+                ('low@K+1,high@2K', {K + 1: 0, 2 * K: 2}), ('low@0=N-1,high@K', {0: 0, n - 1: 0, K: 2}),
+                ('constant', {})]
+        spans = [('whole', [0, n]), ('split@K', [0, K, n]), ('split@K-1,K+1', [0, K - 1, K + 1, n]),
+                 ('split@K+1,2K', [0, K + 1, 2 * K, n]), ('many', [0, 1, K, K + 1, 2 * K, 2 * K + 1, n]),
+                 ('part:K-1..K+1', [K - 1, K + 1]), ('part:1..K..2K', [1, K, 2 * K])]
+        every = big or new
+        for ci, (cname, marks) in enumerate(cols):
+            for si, (sname, sp) in enumerate(spans):
+                if not every and (ci + si + ki) % 2:
+                    continue
+                fns = APR_FNS if every else [APR_FNS[(t + ki) % 6]]
+                for fn in fns:
+                    t += 1
+                    k = APR_KINDS[t % len(APR_KINDS)]
+                    if not _rle_fits(k, n):
+                        k = 'int8'
+                    level = ['kernel', 'session', 'field'][t % 3]
+                    if level == 'field' and (fn.startswith('index_of') or k == 'cat'):
+                        level = 'kernel'
+                    if level == 'session' and sname.startswith('part'):
+                        level = 'kernel'
+                    runs = _runs_from_marks(n, marks)
+                    col = ({'k': k, 'w': 2, 'runs': [[list(_RLE_ORD_FIXED[v]), m] for v, m in runs]} if k == 'fixed'
+                           else {'k': k, 'runs': [[v, m] for v, m in runs]})
+                    case = {'op': 'apr', 'fn': fn, 'level': level, 'sdt': 'int32' if (t // 3) % 2 else 'int64',
+                            'spans': sp, 'col': col, 'K': K, 'hotK': bool(new), 'layout': cname + '/' + sname}
+                    if level == 'session' and t % 4 == 0: case['tf'] = True
+                    if level == 'field' and t % 5 == 0: case['inplace'] = True
+                    if level == 'field' and t % 7 == 0 and n * _ITEMSIZE[k] <= RLE_H5_BYTES: case['h5'] = True
+                    yield case
+
+
+def summarize(recs):
+    ks, hot_ks, n, rows = set(), set(), 0, 0
+    for r in recs:
+        c = r['case']
+        if c['op'] in ('gsr', 'gsr2f', 'gsr2a', 'apr'):
+            n += 1
+            rows = max(rows, _rle_rows(c.get('col') or c['c0']))
+            if c.get('K'):
+                (hot_ks if c.get('hotK') else ks).add(c['K'])
+    return {'large_inputs': {'cases': n, 'largest_column_rows': rows, 'block_lengths_standing_sweep': sorted(ks),
+                             'block_lengths_from_new_literals': sorted(hot_ks),
+                             'new_literals_too_large_to_plant': unreachable_sizes()}}
+
+
+def _gen_hot_rows(tier):
+    """the per-row njit kernels that take 2-D input (multi-field spans, sortedness) on explicit columns of K+1 / 2K+2
+    rows for every SMALL new literal K of the tree under test (statement-level model; nothing on the unchanged tree)."""
+    for K in hot.hot_sizes():
+        if not 4 <= K <= 2048:
+            continue
+        for n in (K + 1, 2 * K + 2):
+            marks = [{K: 1}, {K - 1: 1}, {K + 1: 1}, {K - 1: 1, K: 2, K + 1: 3}, {}]
+            if n > 2 * K:
+                marks += [{2 * K: 1}, {K: 1, 2 * K: 2, 2 * K + 1: 3}]
+            cols = []
+            for m in marks:                         # non-decreasing columns: value = number of marks passed
+                col, v = [], 0
+                for i in range(n):
+                    if i in m: v += 1
+                    col.append(v)
+                cols.append(col)
+            const = [0] * n
+            for c in cols:
+                for k in ('int32', 'float64'):
+                    yield {'op': 'multi', 'k': k, 'w': 3, 'cols': [c]}
+                    yield {'op': 'multi', 'k': k, 'w': 3, 'cols': [const, c]}
+                    yield {'op': 'sorted', 'k': k, 'w': 3, 'cols': [const, c]}
+                unsorted = list(c); unsorted[min(K, n - 1)] = -1
+                yield {'op': 'sorted', 'k': 'int32', 'w': 3, 'cols': [const, unsorted]}
+            yield {'op': 'multi', 'k': 'int32', 'w': 3, 'cols': [cols[0], cols[1]]}
+
+
+RLE_STRIDE = 48      # one large case after this many small ones: spreads them over the worker batches
+
+
 def gen(tier, rng):
+    import random, os
+    if os.environ.get('VERIF_C08_LARGE', '1') == '0':      # development switch (timing of the small-scope part alone)
+        for c in _gen_small(tier, rng):
+            yield c
+        return
+    larges = itertools.chain.from_iterable(itertools.zip_longest(
+        _gen_rle(tier, random.Random(rng.getrandbits(64))), _gen_rle_apply(tier, rng)))
+    larges = itertools.chain((c for c in larges if c is not None), _gen_hot_rows(tier))
+    n = 0
+    for c in _gen_small(tier, rng):
+        yield c
+        n += 1
+        if n % RLE_STRIDE == 0:
+            nxt = next(larges, None)
+            if nxt is not None:
+                yield nxt
+    for c in larges:
+        yield c
+
+
+def _gen_small(tier, rng):
     big = tier == 'thorough'
     cnt = [0]
 
@@ -738,6 +1205,17 @@ def shrink(case):
     def without(rows, i):
         return rows[:i] + rows[i + 1:]
     op = case['op']
+    if op in ('gsr', 'gsr2f'):
+        key = 'col' if op == 'gsr' else 'c0'
+        runs = case[key]['runs']
+        base = {k: v for k, v in case.items() if k not in ('K', 'hotK', 'layout')}
+        for i in range(len(runs)):
+            yield dict(base, **{key: dict(case[key], runs=runs[:i] + runs[i + 1:])})
+        for i, (v, n) in enumerate(runs):
+            for m in sorted({n // 2, n - (1 << max(0, n.bit_length() - 2)), n - 1}):
+                if 0 < m < n:
+                    yield dict(base, **{key: dict(case[key], runs=runs[:i] + [[v, m]] + runs[i + 1:])})
+        return
     if op == 'gs':
         for i in range(len(case['col']['rows'])):
             c = dict(case); c['col'] = dict(case['col'], rows=without(case['col']['rows'], i)); yield c
